@@ -69,6 +69,17 @@ var profiles = map[string]profile{
 
 func chance(r *rand.Rand, p float64) bool { return r.Float64() < p }
 
+// withErrKind draws the error kind of an injected fault (never 409 on the
+// apply path: kubectl's patcher would retry it with back-off).
+func withErrKind(r *rand.Rand, a FAddr) FAddr {
+	for {
+		a.Err = r.Intn(len(faultErrs))
+		if !(a.Kind == "FApply" && faultErrs[a.Err] == 409) {
+			return a
+		}
+	}
+}
+
 func (p profile) massStallProb() float64 {
 	if p.pMassStall > 0 {
 		return p.pMassStall
@@ -599,7 +610,7 @@ func genEnv(r *rand.Rand, p profile, op *Opts, cur Cluster, probe RunResult) Env
 		env.WatchErrAt = r.Intn(len(env.Waits))
 	}
 	if p.faults == "one" && len(probe.Addrs) > 0 && chance(r, 0.5) {
-		env.Faults = []FAddr{probe.Addrs[r.Intn(len(probe.Addrs))]}
+		env.Faults = []FAddr{withErrKind(r, probe.Addrs[r.Intn(len(probe.Addrs))])}
 	}
 	return env
 }
@@ -814,6 +825,7 @@ func (c *collector) count(sc Scenario, res RunResult) {
 	s.Count(fmt.Sprintf("faults:%d", len(sc.Env.Faults)))
 	for _, f := range sc.Env.Faults {
 		s.Count("fault:" + f.Kind)
+		s.Count(fmt.Sprintf("fault-error:%d", faultErrs[f.Err]))
 	}
 	switch sc.Env.Cancel.Kind {
 	case CBeforeSync:
@@ -1003,6 +1015,19 @@ func (c *collector) corpus() {
 	c.stalledHistory(u5, four, fixedRun{local: four4, opts: Opts{Prune: true, Policy: PMustMatch, RecTimeout: true}})
 	c.stalledHistory(u5, four, fixedRun{local: four4[:1], opts: Opts{Prune: true, Policy: PMustMatch, RecTimeout: true, PruneTimeout: true}})
 	c.stalledHistory(u5, four, fixedRun{opts: Opts{Destroy: true, Prune: true, Policy: PMustMatch, PruneTimeout: true}})
+	// 12. the read of a prune candidate is rejected, with every error kind; the candidate
+	// is the dependency of another tracked object (destroy and apply + prune)
+	pairCl := Cluster{NextUID: 100, HasInv: true, Inv: []int{0, 1}, Objs: []CObj{
+		CObj{ID: 0, UID: 1, Owner: OOurs, Ver: 1}.Applied(), CObj{ID: 1, UID: 2, Owner: OOurs, Ver: 1, Deps: []int{0}}.Applied()}}
+	for k := range faultErrs {
+		for _, victim := range []int{0, 1} {
+			c.fixedHistory(u, pairCl, []fixedRun{{opts: Opts{Destroy: true, Prune: true, Policy: PMustMatch},
+				faults: []FAddr{{Kind: "FGet", I: victim, N: 0, Err: k}}}})
+		}
+		c.fixedHistory(u4, Cluster{NextUID: 100, HasInv: true, Inv: []int{1, 2}, Objs: []CObj{
+			CObj{ID: 1, UID: 1, Owner: OOurs, Ver: 1}.Applied(), CObj{ID: 2, UID: 2, Owner: OOurs, Ver: 1, Deps: []int{1}}.Applied()}},
+			[]fixedRun{{local: []LObj{{ID: 0, Ver: 1}}, opts: Opts{Prune: true, Policy: PMustMatch}, faults: []FAddr{{Kind: "FGet", I: 1, N: 0, Err: k}}}})
+	}
 	// a plain round trip: apply two, apply one (prune), destroy
 	c.fixedHistory(u, Cluster{NextUID: 100}, []fixedRun{
 		{local: []LObj{{ID: 0, Ver: 1}, {ID: 1, Ver: 1, Deps: []int{0}}}, opts: Opts{Prune: true, Policy: PMustMatch}},
@@ -1080,12 +1105,12 @@ func (c *collector) variants(r *rand.Rand, p profile, st *Store, h History, sc S
 	st.takeNotes()
 	var sets [][]FAddr
 	for _, a := range probe.Addrs {
-		sets = append(sets, []FAddr{a})
+		sets = append(sets, []FAddr{withErrKind(r, a)})
 	}
 	if p.faults == "pairs" && probe.NReq <= 12 {
 		for i := range probe.Addrs {
 			for j := i + 1; j < len(probe.Addrs); j++ {
-				sets = append(sets, []FAddr{probe.Addrs[i], probe.Addrs[j]})
+				sets = append(sets, []FAddr{withErrKind(r, probe.Addrs[i]), withErrKind(r, probe.Addrs[j])})
 			}
 		}
 		if len(sets) > 40 {
